@@ -289,7 +289,8 @@ def r08_2(ctx, prog, crate, rec):
 
 def r08_3(ctx, prog, crate, rec):
     b = rec.body
-    tls = [s for s in prog.statics(crate) if "CURRENT_THREAD_INFO" in s["path"]]
+    from .common import tally_slot_statics
+    tls, _key = tally_slot_statics(prog, crate)
     ctx.check(tls and all(s["thread_local"] for s in tls), "R08.3", ["tally-slot-thread-local"], "the tally slot is not thread-local", "src/alloc.rs")
     for sp in rec.save_closures:
         cb = prog.bodies.get((b.crate, sp, -1))
